@@ -960,24 +960,6 @@ func (c *Conn) handleBdat(arg string) {
 		c.writeResponse(501, EnhancedCode{5, 5, 4}, "Missing chunk size argument")
 		return
 	}
-	if len(args) > 2 {
-		c.writeResponse(501, EnhancedCode{5, 5, 4}, "Too many arguments")
-		return
-	}
-
-	if !c.fromReceived || len(c.recipients) == 0 {
-		c.writeResponse(502, EnhancedCode{5, 5, 1}, "Missing RCPT TO command.")
-		return
-	}
-
-	last := false
-	if len(args) == 2 {
-		if !strings.EqualFold(args[1], "LAST") {
-			c.writeResponse(501, EnhancedCode{5, 5, 4}, "Unknown BDAT argument")
-			return
-		}
-		last = true
-	}
 
 	// ParseUint instead of Atoi so we will not accept negative values.
 	size, err := strconv.ParseUint(args[0], 10, 32)
@@ -986,11 +968,39 @@ func (c *Conn) handleBdat(arg string) {
 		return
 	}
 
-	if c.server.MaxMessageBytes != 0 && c.bytesReceived+int64(size) > c.server.MaxMessageBytes {
-		c.writeResponse(552, EnhancedCode{5, 3, 4}, "Max message size exceeded")
+	// The chunk follows the command line unconditionally (RFC 3030
+	// section 2). Once its size is known, a refused command has to read
+	// and discard the chunk, otherwise it would be parsed as commands.
+	refuse := func(code int, enhCode EnhancedCode, msg string) {
+		c.writeResponse(code, enhCode, msg)
 
-		// Discard chunk itself without passing it to backend.
+		c.lineLimitReader.LineLimit = 0
 		io.Copy(ioutil.Discard, io.LimitReader(c.text.R, int64(size)))
+		c.lineLimitReader.LineLimit = c.server.MaxLineLength
+	}
+
+	if len(args) > 2 {
+		refuse(501, EnhancedCode{5, 5, 4}, "Too many arguments")
+		return
+	}
+
+	if !c.fromReceived || len(c.recipients) == 0 {
+		refuse(502, EnhancedCode{5, 5, 1}, "Missing RCPT TO command.")
+		return
+	}
+
+	last := false
+	if len(args) == 2 {
+		if !strings.EqualFold(args[1], "LAST") {
+			refuse(501, EnhancedCode{5, 5, 4}, "Unknown BDAT argument")
+			return
+		}
+		last = true
+	}
+
+	if c.server.MaxMessageBytes != 0 && c.bytesReceived+int64(size) > c.server.MaxMessageBytes {
+		// Discard chunk itself without passing it to backend.
+		refuse(552, EnhancedCode{5, 3, 4}, "Max message size exceeded")
 
 		c.reset()
 		return
